@@ -291,7 +291,7 @@ fn key_model(m: &RefPacket) -> (u8, u8, u8, u8, u16, Vec<u8>, Vec<(u16, Vec<Vec<
 
 fn part_a(ctx: &Ctx, rep: &mut Report) {
     let acts = actions();
-    let depth = if ctx.thorough() { 5 } else { 4 };
+    let depth = if ctx.thorough() { 6 } else { 5 };
     let st = bfs::run(
         ctx,
         rep,
